@@ -141,7 +141,9 @@ func (s *Swarm) findPeer(name mesh.PeerName) *Peer {
 func (s *Swarm) onPeerOnline(peer *Peer) {
 	logging.LogTarget("swarm", "peer created", peer.name)
 	s.state.SubscriptionsOf(peer.name, func(ev *event.Subscription) {
-		s.OnSubscribe(peer, ev)
+		if peer.onSubscribe(ev.Key(), ev.Ssid) {
+			s.OnSubscribe(peer, ev)
+		}
 	})
 }
 
@@ -151,11 +153,12 @@ func (s *Swarm) onPeerOffline(name mesh.PeerName) {
 		logging.LogTarget("swarm", "unreachable peer removed", peer.name)
 		peer.Close() // Close the peer on our end
 
-		// Range over all of the subscriptions we have
 		dead := &deadPeer{name: name}
+		// Range over all of the subscriptions we have. The replicated state is left as it
+		// is: it belongs to the peer and is what we restore the subscriptions from in case
+		// the peer becomes reachable again.
 		s.state.SubscriptionsOf(name, func(ev *event.Subscription) {
 			s.OnUnsubscribe(dead, ev) // Notify locally that the subscription is gone
-			s.state.Del(ev)           // Remove the state from ourselves
 		})
 
 		// If we're a fallback server, issue last will events
@@ -165,6 +168,12 @@ func (s *Swarm) onPeerOffline(name mesh.PeerName) {
 			})
 		}
 	}
+}
+
+// touch marks the peer as active, creating it (and restoring its subscriptions) if needed.
+func (s *Swarm) touch(name mesh.PeerName) {
+	s.findPeer(name)
+	s.members.Touch(name)
 }
 
 // SendTo sends a message to a peer.
@@ -203,7 +212,7 @@ func (s *Swarm) update() {
 			// Mark the peer as active, so even if there's no messages being exchanged
 			// we still keep the peer, since we know that the peer is live.
 			if exists := s.router.Peers.Fetch(peer.Name); exists != nil {
-				s.members.Touch(peer.Name)
+				s.touch(peer.Name)
 			}
 
 			// reinforce structure
@@ -258,8 +267,14 @@ func (s *Swarm) merge(buf []byte) (mesh.GossipData, error) {
 	}
 
 	// Remember which of the incoming subscriptions were active before the merge
+	// and make sure the peers they belong to are known: a peer which comes back is restored
+	// from the state as it is before this merge, the merge then only applies the changes.
 	active := make(map[string]bool)
 	other.Subscriptions(func(ev *event.Subscription, _ event.Value) {
+		if ev.Peer != uint64(s.router.Ourself.Name) {
+			s.findPeer(mesh.PeerName(ev.Peer))
+		}
+
 		active[ev.Key()] = s.state.Has(ev)
 	})
 
